@@ -151,6 +151,14 @@ func genSearchCases(r *Rng, count int, corpus map[string][]Seed) []*Case {
 		}
 	}
 	mk(&Case{Kind: "transform", Input: []byte("let x = 1 //\xC3"), Opts: Opts{Loader: "js", SourceMap: "inline", Charset: "ascii", Sourcefile: "a.js"}, Desc: "regression:C16-truncated-utf8-hang(ascii)"})
+	// finding C16-regexp-invalid-utf8 (fixed dbc750e, dfdee39): a lone surrogate reaching a compiled pattern
+	for _, imp := range []string{"import('./dir/' + n + '\\uD800.js')", "require(`./dir/${n}\\uDC00`)"} {
+		mk(&Case{Kind: "build", Files: map[string][]byte{"src/entry.js": []byte("let n = 'a'; " + imp), "src/dir/a.js": []byte("export let x = 1")}, Entry: []string{"src/entry.js"}, Opts: Opts{Format: "esm"}, Desc: "regression:C16-regexp-invalid-utf8(A glob import)"})
+	}
+	mk(&Case{Kind: "build", Files: map[string][]byte{"src/entry.js": []byte("import {x} from 'pkg'; console.log(x)"), "node_modules/pkg/package.json": []byte(`{"sideEffects": ["\ud800.js", "a\udc00*.js", "*.css"]}`), "node_modules/pkg/index.js": []byte("export let x = 1")},
+		Entry: []string{"src/entry.js"}, Desc: "regression:C16-regexp-invalid-utf8(B imported package)"})
+	mk(&Case{Kind: "build", Files: map[string][]byte{"src/entry.js": []byte("console.log(1)"), "package.json": []byte(`{"sideEffects": ["a\udc00*.js"]}`)},
+		Entry: []string{"src/entry.js"}, Desc: "regression:C16-regexp-invalid-utf8(B root package.json: process death before the fix)"})
 	// an identifier that extends to the very end of the file inside a diagnostic (css_lexer.RangeOfIdentifier)
 	for _, in := range []string{".foo { composes: bar from x", ".foo { composes: bar from glob", ".a{composes:b from \\41"} {
 		mk(&Case{Kind: "transform", Input: []byte(in), Opts: Opts{Loader: "local-css"}, Desc: "regression:C16-css-identifier-range-hang"})
@@ -332,11 +340,6 @@ func runSearch(r *Rng, n int, tier string, corpus map[string][]Seed) *Stats {
 			st.Fail("deadlock: no result and no CPU progress (confirmed by a re-run alone)", describeCase(c), fmt.Sprintf("no result after %d ms wall with only %d ms of CPU for %d input bytes", o.Millis, o.CPUMillis, caseSize(c)), "terminates within seconds")
 		case o.Status == "starved":
 			st.Histogram["inconclusive-starved-by-machine-load"]++
-		case o.Status == "died" && strings.Contains(o.Stderr, "regexp: Compile(") && strings.Contains(o.Stderr, "invalid UTF-8"):
-			// own failure kind (finding C16-regexp-invalid-utf8): cannot mask any other crash
-			st.Fail("process death: regexp.MustCompile on an input-derived pattern holding invalid UTF-8 (lone surrogate), outside any recover wrapper", describeCase(c), clip(o.Stderr, 1200), "ordinary diagnostics or output")
-		case o.Status == "ok" && len(o.Flagged) > 0 && allFlaggedAre(o.Flagged, "regexp: Compile(", "invalid UTF-8"):
-			st.Fail("recovered panic: regexp.MustCompile on an input-derived pattern holding invalid UTF-8 (lone surrogate)", describeCase(c), o.Flagged, "ordinary diagnostics or output")
 		case o.Status == "died":
 			st.Fail("crash: the process died while building this input", describeCase(c), clip(o.Stderr, 2500), "ordinary diagnostics or output")
 		case o.Status == "panic":
@@ -446,22 +449,4 @@ func extQuoted(o *Opts) map[string]string {
 	put("log_override", o.LogOverride, len(o.LogOverride) == 0)
 	put("mangle_cache", o.MangleCacheJSON, o.MangleCacheJSON == "")
 	return out
-}
-
-// allFlaggedAre: every flagged message that mentions a panic contains all the given substrings
-// (stack-trace notes of the same message are ignored)
-func allFlaggedAre(flagged []string, subs ...string) bool {
-	n := 0
-	for _, f := range flagged {
-		if !strings.HasPrefix(f, "panic:") {
-			continue
-		}
-		n++
-		for _, s := range subs {
-			if !strings.Contains(f, s) {
-				return false
-			}
-		}
-	}
-	return n > 0
 }
